@@ -1085,3 +1085,43 @@ fn coerce_fuel(v: &Value, ty: &Ty, env: &Env, fuel: u32) -> Option<Value> {
         }
     }
 }
+
+// ------------------------------------------------------------------------------------------
+// comment-insensitive comparison, property collection
+// ------------------------------------------------------------------------------------------
+
+/// the type with every comment / source position removed (for "docs never alter the type")
+pub fn erase_meta(ty: &Ty) -> Ty {
+    match ty {
+        Ty::Array(t) => Ty::Array(Box::new(erase_meta(t))),
+        Ty::Tuple(ts) => Ty::Tuple(ts.iter().map(erase_meta).collect()),
+        Ty::Union(ts) => Ty::Union(ts.iter().map(erase_meta).collect()),
+        Ty::Inter(ts) => Ty::Inter(ts.iter().map(erase_meta).collect()),
+        Ty::Obj(o) => Ty::Obj(Obj {
+            props: o.props.iter().map(|p| Prop { key: p.key.clone(), optional: p.optional, ty: erase_meta(&p.ty), quoted: p.quoted, docs: vec![], lo: 0 }).collect(),
+            index: o.index.iter().map(|(k, v, opt)| (erase_meta(k), erase_meta(v), *opt)).collect(),
+        }),
+        Ty::Ref(n, args) => Ty::Ref(n.clone(), args.iter().map(erase_meta).collect()),
+        other => other.clone(),
+    }
+}
+
+/// every property signature of a type, in source order
+pub fn collect_props<'a>(ty: &'a Ty, out: &mut Vec<&'a Prop>) {
+    match ty {
+        Ty::Array(t) => collect_props(t, out),
+        Ty::Tuple(ts) | Ty::Union(ts) | Ty::Inter(ts) => ts.iter().for_each(|t| collect_props(t, out)),
+        Ty::Obj(o) => {
+            for p in &o.props {
+                out.push(p);
+                collect_props(&p.ty, out);
+            }
+            for (k, v, _) in &o.index {
+                collect_props(k, out);
+                collect_props(v, out);
+            }
+        }
+        Ty::Ref(_, args) => args.iter().for_each(|t| collect_props(t, out)),
+        _ => (),
+    }
+}
